@@ -38,5 +38,5 @@ CHECKER_MODULES = ["Spdc.Real.PM", "Spdc.Real.Jsa"]
 
 def families(tier, seed):
     if tier == "quick":
-        return [("pm", seed, 600, ["k"]), ("pm", seed, 500, ["c06"])]
+        return [("pm", seed, 1500, ["k"]), ("pm", seed, 1500, ["c06"])]
     return [("pm", seed, 4000, ["k"]), ("pm", seed + 1000, 4000, ["k"]), ("pm", seed, 3000, ["c06"])]
